@@ -181,12 +181,14 @@ def run_calls(pexpect, which, sim, calls, use_poll=False):
     out = []
     c._verif_timeout_changed = None
     c._verif_waits = []
+    c._verif_sock = []          # per socket read: (own timeout afterwards, settimeout calls), in ms
     own = [12.5, 7.25, 3.5, None, 40.0]
     with ctxm:
         for i, (size, t0) in enumerate(calls):
             if which == 2:
                 # the application changes the socket's own timeout between reads: each read must leave it as it found it
                 c.socket._timeout = own[i % len(own)]
+                del c.socket.timeouts_set[:]
             del sim.waits[:]
             try:
                 d = c.read_nonblocking(size, timeout=0 if t0 else 5)
@@ -199,6 +201,9 @@ def run_calls(pexpect, which, sim, calls, use_poll=False):
                 r = [3]
             out.append([r, sim.state(), len(sim.sched)])
             c._verif_waits.append((0 if t0 else 5, list(sim.waits)))
+            if which == 2:
+                ms = lambda v: None if v is None else int(round(v * 1000))
+                c._verif_sock.append([ms(c.socket.gettimeout()), [ms(v) for v in c.socket.timeouts_set]])
             if which == 2 and c.socket.gettimeout() != own[i % len(own)] and c._verif_timeout_changed is None:
                 c._verif_timeout_changed = (own[i % len(own)], c.socket.gettimeout())
     if which == 1:
@@ -208,6 +213,9 @@ def run_calls(pexpect, which, sim, calls, use_poll=False):
             except OSError:
                 pass
     return out, c
+
+
+SOCK_OWN_MS = [12500, 7250, 3500, None, 40000]
 
 
 def gen_sched(rng, n, alpha=b'ab'):
